@@ -124,6 +124,36 @@ class Module:
         return lines[n - 1] if 0 < n <= len(lines) else ""
 
 
+def _drop_local_annotations(tree: ast.AST) -> None:
+    """Inside function bodies `x: T = v` is read as `x = v` (a local annotation has no effect at run time; class bodies and
+    module level keep theirs - dataclass fields and typed constants are facts the rules use)."""
+    class _T(ast.NodeTransformer):
+        def __init__(self) -> None:
+            self.depth = 0
+
+        def _fn(self, node):
+            self.depth += 1
+            self.generic_visit(node)
+            self.depth -= 1
+            return node
+
+        visit_FunctionDef = visit_AsyncFunctionDef = _fn
+
+        def visit_ClassDef(self, node):
+            d, self.depth = self.depth, 0
+            self.generic_visit(node)
+            self.depth = d
+            return node
+
+        def visit_AnnAssign(self, node: ast.AnnAssign):
+            if self.depth > 0 and node.value is not None:
+                return ast.copy_location(ast.Assign(targets=[node.target], value=node.value, type_comment=None), node)
+            return node
+
+    _T().visit(tree)
+    ast.fix_missing_locations(tree)
+
+
 def set_parents(tree: ast.AST) -> None:
     for node in ast.walk(tree):
         for child in ast.iter_child_nodes(node):
@@ -208,6 +238,7 @@ class Repo:
                 tree = ast.parse(src, filename=str(path))
             except (SyntaxError, UnicodeDecodeError, OSError) as e:
                 raise AnalysisError(f"cannot parse {path}: {e}") from e
+            _drop_local_annotations(tree)
             set_parents(tree)
             mod = Module(name=name, path=path, source=src, tree=tree)
             mod.imports = collect_imports(tree.body, name, is_pkg)
